@@ -215,6 +215,56 @@ static void scalar_shard(long shard, void *arg) {
     }
 }
 
+/* RFC 3492 encoder for ONE label of code points (the harness's own: libidn2 exports no raw Punycode call) */
+static int puny_adapt(unsigned delta, unsigned numpoints, int first) { unsigned k = 0; delta = first ? delta / 700 : delta / 2; delta += delta / numpoints; while (delta > 455) { delta /= 35; k += 36; } return (int)(k + 36 * delta / (delta + 38)); }
+static int puny_encode(const unsigned long *cp, int n, char *out, int cap) {
+    unsigned nn = 128, delta = 0, bias = 72; int o = 0, h, b = 0;
+    for (int i = 0; i < n; i++) if (cp[i] < 128) { if (o >= cap - 1) return -1; out[o++] = (char)cp[i]; b++; }
+    h = b; if (b) out[o++] = '-';
+    while (h < n) {
+        unsigned long m = 0x7fffffff; for (int i = 0; i < n; i++) if (cp[i] >= nn && cp[i] < m) m = cp[i];
+        delta += (unsigned)(m - nn) * (unsigned)(h + 1); nn = (unsigned)m;
+        for (int i = 0; i < n; i++) {
+            if (cp[i] < nn) delta++;
+            if (cp[i] == nn) {
+                unsigned q = delta;
+                for (unsigned k = 36;; k += 36) { unsigned t = k <= bias ? 1 : k >= bias + 26 ? 26 : k - bias; if (q < t) break; unsigned d = t + (q - t) % (36 - t); if (o >= cap - 1) return -1; out[o++] = (char)(d < 26 ? 'a' + d : '0' + d - 26); q = (q - t) / (36 - t); }
+                if (o >= cap - 1) return -1; out[o++] = (char)(q < 26 ? 'a' + q : '0' + q - 26);
+                bias = (unsigned)puny_adapt(delta, (unsigned)h + 1, h == b); delta = 0; h++;
+            }
+        }
+        delta++; nn++;
+    }
+    out[o] = 0; return o;
+}
+/* MIXED spellings: an A-label that the converter refuses only when it decodes and re-validates it (its U-form is a disallowed / unassigned /
+ * contextually wrong code point) next to a label that is NOT ASCII - a converter call that skips the round trip "because the input is UTF-8
+ * anyway" lets it through in exactly this combination.  For every scalar whose one-character label (alone and after a letter) the independent
+ * conversion refuses: xn--<punycode> before a Cyrillic TLD, behind a Cyrillic label, before an ideographic full stop, before fullwidth "com". */
+static int C_MIXED;
+static void mixed_shard(long shard, void *arg) {
+    (void)arg; unsigned long lo = (unsigned long)shard * 0x1000, hi = lo + 0x1000;
+    if (!mc_thorough && !(lo < 0x3000 || (lo >= 0xa000 && lo < 0xb000) || (lo >= 0xf000 && lo < 0x10000) || (lo >= 0x1f000 && lo < 0x20000) || lo == 0xe0000)) return;
+    for (unsigned long cp = lo; cp < hi; cp++) {
+        if (cp < 0x80 || (cp >= 0xd800 && cp <= 0xdfff)) continue;
+        for (int shape = 0; shape < 2; shape++) {
+            unsigned long L[2]; int n = 0; if (shape) L[n++] = 'a'; L[n++] = cp;
+            char pc[40], al[48], d[160]; if (puny_encode(L, n, pc, sizeof pc) < 0) continue;
+            snprintf(al, sizeof al, "xn--%s", pc);
+            snprintf(d, sizeof d, "%s.com", al);
+            char *a = NULL; int r = idn2_to_ascii_8z(d, &a, IDN2_NONTRANSITIONAL); if (a) free(a);
+            if (r == IDN2_OK) continue;                      /* a fine A-label: the scalar sweep has it in both spellings */
+            MC_ADD(C_MIXED, 1);
+            check_idn("mixed", d);
+            snprintf(d, sizeof d, "%s.\xd1\x80\xd1\x84", al); check_idn("mixed", d);
+            snprintf(d, sizeof d, "\xd0\xb6.%s.com", al); check_idn("mixed", d);
+            snprintf(d, sizeof d, "%s\xe3\x80\x82" "com", al); check_idn("mixed", d);
+            snprintf(d, sizeof d, "%s.\xef\xbd\x83\xef\xbd\x8f\xef\xbd\x8d", al); check_idn("mixed", d);
+            snprintf(d, sizeof d, "\xd0\xb6%s.com", al); check_idn("mixed", d);     /* and glued behind a non-ASCII character: then it is no A-label at all */
+        }
+    }
+}
+
 /* IDNA2008 contextual code points (RFC 5892 appendix A: ZWNJ, ZWJ, MIDDLE DOT, Greek keraia, Hebrew geresh / gershayim, Katakana middle dot) are valid
  * only next to certain neighbours: every one of them between every ordered pair of 34 neighbours (letters of the scripts concerned, viramas of six
  * scripts, ASCII) and after a virama; the independent conversion decides, the library must follow it for the U-label and agree on the A-label. */
@@ -259,6 +309,8 @@ int main(int argc, char **argv) {
       for (unsigned i = 0; i < sizeof PH / sizeof PH[0]; i++) { L5PH = PH[i]; char nm5[80]; snprintf(nm5, sizeof nm5, "corpus: %.60s", corpus_name(L5PH)); mc_parallel(nm5, corpus_shards(L5PH), l5_shard, NULL); } }
     mc_parallel("contextual: 7 CONTEXTJ/CONTEXTO code points between every ordered pair of 34 neighbours (letters, viramas of six scripts, digits), 3 shapes", 7, contextual_shard, NULL);
     mc_parallel("scalars: every Unicode scalar value U+0080..U+10FFFF as a one-character label and after a letter, before .com", 0x110000 / 0x1000, scalar_shard, NULL);
+    C_MIXED = mc_counter("mixed_spelling_bad_a_labels");
+    mc_parallel(mc_thorough ? "mixed: xn-- form of every scalar the converter refuses (alone, after a letter) next to non-ASCII labels / dots, 6 shapes" : "mixed: xn-- form of every refused scalar of U+0080-2FFF, A000-AFFF, F000-FFFF, 1F000-1FFFF, E0000-E0FFF next to non-ASCII labels / dots, 6 shapes", 0x110000 / 0x1000, mixed_shard, NULL);
     mc_parallel("pairs: every ordered pair of long domains sharing a >= 255-byte prefix, second one right after the first", 48, pair_shard, NULL);
     mc_parallel("pairs: every ordered pair of the 1296 domains b.XY, second one right after the first", 1296, shortpair_shard, NULL);
     mc_parallel("negatives: every 2-byte pattern inside a label, symbol/hyphen/length families", 256, neg_shard, NULL);
